@@ -113,6 +113,36 @@ func genPart(t *rapid.T, brokers int, forceLive, deadBrokers bool) partSpec {
 	return p
 }
 
+// zeroID rewrites a generated case so that the broker with the highest id is node 0.
+func zeroID(c *queryCase) {
+	n := int32(c.Cluster.Brokers)
+	re := func(id int32) int32 {
+		if id == n {
+			return 0
+		}
+		return id
+	}
+	c.Cluster.ZeroID = true
+	c.Cluster.Controller = re(c.Cluster.Controller)
+	for ti := range c.Cluster.Topics {
+		for pi := range c.Cluster.Topics[ti].Parts {
+			p := &c.Cluster.Topics[ti].Parts[pi]
+			p.Leader = re(p.Leader)
+			for _, l := range [][]int32{p.Replicas, p.ISR, p.Offline} {
+				for i := range l {
+					l[i] = re(l[i])
+				}
+			}
+		}
+	}
+	for i := range c.Cluster.Coords {
+		c.Cluster.Coords[i].Broker = re(c.Cluster.Coords[i].Broker)
+	}
+	for i := range c.Ops {
+		c.Ops[i].Bootstrap = re(c.Ops[i].Bootstrap)
+	}
+}
+
 func genCluster(t *rapid.T, minBrokers int, sameIndexes bool) clusterSpec {
 	var c clusterSpec
 	c.Brokers = rapid.IntRange(minBrokers, 4).Draw(t, "brokers")
@@ -505,6 +535,9 @@ func TestConn(t *testing.T) {
 				c.Ops = append(c.Ops, genConnOp(t, &c.Cluster, false, chance(t, "withFault", 4)))
 			}
 		}
+		if chance(t, "zeroID", 3) {
+			zeroID(&c)
+		}
 		record(t, c)
 	})
 }
@@ -541,6 +574,9 @@ func TestClient(t *testing.T) {
 					c.Ops = append(c.Ops, genMetadataOp(t, &c.Cluster))
 				}
 			}
+		}
+		if chance(t, "zeroID", 3) {
+			zeroID(&c)
 		}
 		record(t, c)
 	})
